@@ -285,3 +285,12 @@ func verifLemma_C10_bucket_header(id uint64, tag Tag, length int, bucketBits int
 	verifrt.Assert(g.Tag == tag, "header-tag")
 	verifrt.Assert(g.Length == length, "header-length")
 }
+
+// ---- exported views of the uvarint wire-format spec functions -----------------
+// Other packages' spec functions (ingest/compact) are written over these; the
+// verifier inlines the wrappers, so they denote the same (opaque) functions.
+
+func VerifUvlen(v uint64) int           { return uvlen(v) }
+func VerifUvLen(b []byte, p int) int    { return uvLen(b, p) }
+func VerifUvOK(b []byte, p int) bool    { return uvOK(b, p) }
+func VerifUvVal(b []byte, p int) uint64 { return uvVal(b, p) }
